@@ -380,14 +380,57 @@ def r_agg(E):
 
 
 # ---------------------------------------------------------------------------------------------- JSON
-def _writer_paths(fn, find_method=None, _depth=2):
-    """paths through a to_json writer: list of dict(keys, none_keys, conds); `d.update({...})` and
-    `d.update(self.<helper>(...))` add the literal's keys / the keys of each path through the helper"""
-    paths = [dict(keys=set(), none=set(), conds=[])]
+def _writer_paths(fn, find_method=None, _depth=3, super_method=None):
+    """paths through a to_json writer: list of dict(keys, none_keys, conds); `d.update({...})`, `d |= {...}`,
+    `d = {...} | self.<helper>(...)`, `d.update(self.<helper>(...))` add the literal's keys / the keys of each path through
+    the helper (resolved for the class written: an overridden hook is the override); a helper's `return {...}` ends its
+    path with those keys; `return super().<same method>(...)` continues in the inherited method (super_method(fn))"""
+    paths = [dict(keys=set(), none=set(), conds=[], done=False)]
 
     def merged(paths, extra):
-        return [dict(keys=p["keys"] | q["keys"], none=p["none"] | q["none"], conds=p["conds"] + q["conds"])
-                for p in paths for q in extra]
+        return [p if p["done"] else dict(keys=p["keys"] | q["keys"], none=p["none"] | q["none"], conds=p["conds"] + q["conds"],
+                                          done=False)
+                for p in paths for q in (extra if not p["done"] else [None])]
+
+    def helper_paths(call):
+        """paths of `self.<helper>(…)` / `super().<this method>(…)`, or None"""
+        if not (isinstance(call, ast.Call) and isinstance(call.func, ast.Attribute)) or _depth <= 0:
+            return None
+        recv = call.func.value
+        if isinstance(recv, ast.Name) and recv.id == "self" and find_method is not None and call.func.attr != "update":
+            h = find_method(call.func.attr)
+            if h is not None and h is not fn and h.name != fn.name:
+                return _writer_paths(h, find_method, _depth - 1, super_method)
+        if isinstance(recv, ast.Call) and isinstance(recv.func, ast.Name) and recv.func.id == "super" \
+                and super_method is not None:
+            h = super_method(fn, call.func.attr)
+            if h is not None and h is not fn:
+                return _writer_paths(h, find_method, _depth - 1, super_method)
+        return None
+
+    def dict_parts(e):
+        """`A | B | …` with every part a dict literal or a helper call: list of parts, else None"""
+        if isinstance(e, ast.BinOp) and isinstance(e.op, ast.BitOr):
+            l, r = dict_parts(e.left), dict_parts(e.right)
+            return None if l is None or r is None else l + r
+        if isinstance(e, ast.Dict) or helper_paths(e) is not None:
+            return [e]
+        return None
+
+    def add_parts(paths, parts):
+        for x in parts:
+            if isinstance(x, ast.Dict):
+                for p in paths:
+                    if p["done"]:
+                        continue
+                    for k, v in zip(x.keys, x.values):
+                        if isinstance(k, ast.Constant):
+                            p["keys"].add(k.value)
+                            if isinstance(v, ast.Constant) and v.value is None:
+                                p["none"].add(k.value)
+            else:
+                paths = merged(paths, helper_paths(x))
+        return paths
 
     def run(stmts, paths):
         for s in stmts:
@@ -397,12 +440,22 @@ def _writer_paths(fn, find_method=None, _depth=2):
                 x = upd.args[0]
                 if isinstance(x, ast.Dict):
                     for p in paths:
-                        p["keys"] |= {k.value for k in x.keys if isinstance(k, ast.Constant)}
-                elif isinstance(x, ast.Call) and isinstance(x.func, ast.Attribute) and isinstance(x.func.value, ast.Name) \
-                        and x.func.value.id == "self" and find_method is not None and _depth > 0:
-                    h = find_method(x.func.attr)
-                    if h is not None and h.name != fn.name:
-                        paths = merged(paths, _writer_paths(h, find_method, _depth - 1))
+                        if not p["done"]:
+                            p["keys"] |= {k.value for k in x.keys if isinstance(k, ast.Constant)}
+                elif helper_paths(x) is not None:
+                    paths = merged(paths, helper_paths(x))
+                continue
+            if isinstance(s, ast.AugAssign) and isinstance(s.op, ast.BitOr) and dict_parts(s.value) is not None:
+                paths = add_parts(paths, dict_parts(s.value))
+                continue
+            if isinstance(s, ast.Return) and s.value is not None and dict_parts(s.value) is not None:
+                paths = add_parts(paths, dict_parts(s.value))
+                for p in paths:
+                    p["done"] = True
+                continue
+            if isinstance(s, ast.Assign) and isinstance(s.targets[0], ast.Name) and isinstance(s.value, ast.BinOp) \
+                    and dict_parts(s.value) is not None:
+                paths = add_parts(paths, dict_parts(s.value))
                 continue
             # the dict handed to a same-class helper that completes it: `return self.h(d, …)`, `self.h(d, …)`, `d = self.h(d, …)`
             hc = s.value if isinstance(s, (ast.Return, ast.Expr, ast.Assign)) and isinstance(getattr(s, "value", None), ast.Call) else None
@@ -411,10 +464,12 @@ def _writer_paths(fn, find_method=None, _depth=2):
                     and find_method is not None and _depth > 0 and hc.func.attr != "update":
                 h = find_method(hc.func.attr)
                 if h is not None and h.name != fn.name:
-                    paths = merged(paths, _writer_paths(h, find_method, _depth - 1))
+                    paths = merged(paths, _writer_paths(h, find_method, _depth - 1, super_method))
                     continue
             if isinstance(s, ast.Assign) and isinstance(s.value, ast.Dict) and isinstance(s.targets[0], ast.Name):
                 for p in paths:
+                    if p["done"]:
+                        continue
                     for k, v in zip(s.value.keys, s.value.values):
                         if isinstance(k, ast.Constant):
                             p["keys"].add(k.value)
@@ -423,16 +478,20 @@ def _writer_paths(fn, find_method=None, _depth=2):
             elif isinstance(s, ast.Assign) and isinstance(s.targets[0], ast.Subscript) \
                     and isinstance(s.targets[0].slice, ast.Constant):
                 for p in paths:
-                    p["keys"].add(s.targets[0].slice.value)
+                    if not p["done"]:
+                        p["keys"].add(s.targets[0].slice.value)
             elif isinstance(s, ast.If):
-                a = [dict(keys=set(p["keys"]), none=set(p["none"]), conds=p["conds"] + [norm(s.test)[:50]]) for p in paths]
-                b = [dict(keys=set(p["keys"]), none=set(p["none"]), conds=p["conds"] + ["not " + norm(s.test)[:46]])
-                     for p in paths]
+                live = [p for p in paths if not p["done"]]
+                dead = [p for p in paths if p["done"]]
+                a = [dict(keys=set(p["keys"]), none=set(p["none"]), conds=p["conds"] + [norm(s.test)[:50]], done=False) for p in live]
+                b = [dict(keys=set(p["keys"]), none=set(p["none"]), conds=p["conds"] + ["not " + norm(s.test)[:46]], done=False)
+                     for p in live]
                 a = run(s.body, a)
                 b = run(s.orelse, b)
-                paths = a + b
+                paths = dead + a + b
         return paths
-    return run(fn.body, paths)
+    out = run(fn.body, paths)
+    return out
 
 
 class _KeyErr(Exception):
@@ -668,10 +727,28 @@ def r_json_keys(E):
     writers = [("ExplainableObject", EB), ("EmptyExplainableObject", EO), ("ExplainableQuantity", EO),
                ("ExplainableHourlyQuantities", EO)]
     from ..astutil import inline_helpers
+    def _super_method(fn_, name):
+        """the method `name` that super() reaches from fn_ (a method of a class of the hierarchy written)"""
+        oc = getattr(fn_, "_owner_class", None) or (fn_._parent.name if isinstance(getattr(fn_, "_parent", None), ast.ClassDef) else None)
+        if oc is None:
+            return None
+        for base in pm.mro(oc)[1:]:
+            for b_ in pm.classes[base].node.body if base in pm.classes else []:
+                if isinstance(b_, ast.FunctionDef) and b_.name == name:
+                    return b_
+        return None
     for cls, suffix in writers:
-        wrel, w = pm.find_function(suffix, f"{cls}.to_json")
+        # (the writer of a class is the to_json it inherits when it does not define one: a template method whose hooks
+        # the class overrides)
+        wowner, w = pm.find_method(cls, "to_json")
+        if w is None:
+            raise AnalysisError(f"{cls}.to_json vanished")
+        wrel = pm.classes[wowner].path
+        w0_ = w
         w = inline_helpers(w, lambda name, _c=cls: (pm.find_method(_c, name)[1] if name != "to_json" else None))
-        for p in _writer_paths(w, lambda name, _c=cls: (pm.find_method(_c, name)[1] if name != "to_json" else None)):
+        w._owner_class = wowner
+        for p in _writer_paths(w, lambda name, _c=cls: (pm.find_method(_c, name)[1] if name != "to_json" else None),
+                               super_method=_super_method):
             res.instances += 1
             selected, problem = _select_reader_path(rpaths, p, reader)
             where = f"{cls}.to_json [{' & '.join(p['conds']) or 'always'}]"
@@ -708,7 +785,8 @@ def r_json_keys(E):
     # guards `d["source"] = {… self.source.name …}` may look at self.source, not at something else about the value
     from ..astutil import path_conditions as _pc, nodes_through_helpers as _nth
     for cls, suffix in writers:
-        wrel, w0 = pm.find_function(suffix, f"{cls}.to_json")
+        wowner, w0 = pm.find_method(cls, "to_json")
+        wrel = pm.classes[wowner].path
         finder = lambda name, _c=cls: (pm.find_method(_c, name)[1] if name != "to_json" else None)
         fns, todo = [w0], [w0]
         while todo:
